@@ -74,6 +74,9 @@ def gen_history(rng, tier):
     case = S.gen_case(rng, max_n=6, p_fail=0.1, runner=rng.choice(['l1', 'l1', 'serial', 'serial', 'fork']), ntypes=12, p_unpicklable=0.4)
     case['pre'] = []
     case['storage'] = 'local'
+    if rng.random() < 0.3:
+        # some tasks are cached by a cache class that is nested in another class
+        case['types'] = [14 if (ty in (0, 8, 10) and rng.random() < 0.6) else ty for ty in case['types']]
     n = case['n']
     ops = []
     for _ in range(rng.randint(2, 8 if tier == 'quick' else 16)):
@@ -87,7 +90,7 @@ def gen_history(rng, tier):
         elif r < 0.8:
             ops.append(['is_cached', rng.randrange(n)])
         else:
-            ops.append(['cached', sorted(rng.sample(range(12), rng.randint(1, 4)))])
+            ops.append(['cached', sorted(rng.sample(list(range(12)) + [14], rng.randint(1, 4)))])
     if rng.random() < 0.3 and n >= 2:
         # directed pattern: a run that is abandoned at the first failure, then a run in which a dependency fails
         # (state surviving the abandoned run must not leak into the next one)
@@ -106,7 +109,7 @@ def gen_history(rng, tier):
             tops = [t for t in range(n) if t not in gone] or [n - 1]
             ops = [['run', everything, False, True, []], ['uncache', gone],
                    ['run', [[t, 0] for t in rng.sample(tops, rng.randint(1, len(tops)))], False, True, []],
-                   ['cached', sorted(rng.sample(range(12), 4))]] + ops[:3]
+                   ['cached', sorted(rng.sample(list(range(12)) + [14], 4))]] + ops[:3]
     if case['runner'] == 'fork':
         # a real worker saves its result on its own; when run_tasks raises at the first failure, results of workers whose
         # completion was never processed are (legitimately) in the cache although the coordinator never saw them: the
@@ -163,7 +166,14 @@ def run_history(h):
                 was_cached = {t: lab.is_cached(built.canon[t]) for t in range(case['n'])}
                 _before = sorted(t for t, v in was_cached.items() if v)
                 try:
-                    res = lab.run_tasks(req, bust_cache=op[2], disable_progress=True, disable_top=True)
+                    if len(req) == 1 and (opno + len(h['ops'])) % 2 == 0:
+                        # the single-task front end: Lab.run_task(task, **the same keyword arguments)
+                        try:
+                            res = {req[0]: lab.run_task(req[0], bust_cache=op[2], disable_progress=True, disable_top=True)}
+                        except KeyError:
+                            res = {}        # (run_task indexes the result dict: a failed task has no entry there)
+                    else:
+                        res = lab.run_tasks(req, bust_cache=op[2], disable_progress=True, disable_top=True)
                     outs.append(['returned', [[built.tid_of[k], v] for k, v in res.items()]])
                     for k, v in res.items():
                         if k.result_meta is None:
@@ -262,7 +272,7 @@ def run_history(h):
             else:
                 lab = Lab(storage=storage, runner_backend='serial', notebook=False)
                 try:
-                    found = lab.cached_tasks([U.SCHED_TYPES[i] for i in op[1]])
+                    found = lab.cached_tasks([S.SCHED[i] for i in op[1]])
                     tids = []
                     for t in found:
                         if t not in built.tid_of:
@@ -300,6 +310,8 @@ def run_history(h):
         import lv_universe2 as U2
         for t in final:
             c = built.canon[t]
+            if type(c).__qualname__ not in U2.TWINS:
+                continue
             twin = U2.TWINS[type(c).__qualname__](label=c.label, deps=c.deps, beh=c.beh, reads=c.reads, talk=c.talk)
             try:
                 if lab.is_cached(twin):
@@ -500,7 +512,7 @@ def run_histories(prop, report, tier, seed, replay=None):
             dist[f'out={out[0]}'] += 1
         owner = {'entry-lost-by-run': ['C08', 'C06'], 'entry-appeared': ['C08'], 'entry-appeared-unneeded': ['C08', 'C03'], 'cached-but-executed': ['C06', 'C03'], 'no-result-meta': ['C06'], 'result-meta-differs': ['C06', 'C03'],
                  'other-task-served': ['C06'], 'equal-task-not-cached': ['C06', 'C07'], 'loaded-value-differs': ['C06', 'C08'], 'uncache-left-entry': ['C08'], 'loaded-under-bust': ['C08', 'C01', 'C02'], 'stale-read-of-failed-dep': ['C02'], 'stale-dependency-value': ['C01', 'C02'],
-                 'foreign-task': ['C09', 'C08'], 'key-differs': ['C09', 'C08'], 'no-meta': ['C09'], 'listed-twice': ['C09', 'C08'], 'listed-not-cached': ['C08', 'C09'], 'stored-not-listed': ['C08', 'C09'], 'spurious-failure': ['C17', 'C02', 'C01']}
+                 'foreign-task': ['C09', 'C08'], 'key-differs': ['C09', 'C08'], 'no-meta': ['C09'], 'listed-twice': ['C09', 'C08'], 'listed-not-cached': ['C08', 'C09'], 'stored-not-listed': ['C08', 'C09'], 'spurious-failure': ['C17', 'C02', 'C01', 'C06', 'C08', 'C09']}
         for sig, what in obs['problems']:
             if prop in owner.get(sig, []):
                 report.violation(f'{prop}:{sig}', what, dict(history=h))
